@@ -82,3 +82,11 @@ Qed.
 Example equation_without_equals_raises :
   symbols_to_graph_M [mkSymbol (Some "Y") TEndogenous None None (Some "Y[t]") None] = Raise ValueError.
 Proof. vm_compute. reflexivity. Qed.
+
+(* fix 9d4c57e: a verbatim block keeps its code in the `equation` field; with or without "=" it contributes nothing *)
+Definition ex_verbatim_noeq : symbol := mkSymbol None TVerbatim None None (Some ("```" ++ nl_s ++ "pass" ++ nl_s ++ "```")) (Some "pass").
+Definition ex_verbatim_eq : symbol := mkSymbol None TVerbatim None None (Some ("```" ++ nl_s ++ "x = Y[t] + 1" ++ nl_s ++ "```")) (Some "x = Y[t] + 1").
+Example verbatim_blocks_ignored :
+  symbols_to_graph_M (ex_verbatim_noeq :: ex_symbols ++ [ex_verbatim_eq])%list = symbols_to_graph_M ex_symbols /\
+  symbols_to_graph_M [ex_verbatim_noeq] = Ret empty_graph.
+Proof. vm_compute. split; reflexivity. Qed.
